@@ -52,6 +52,9 @@ func init() {
 	c01.Harnesses = append(c01.Harnesses, &HarnessSpec{Name: "verifHarnessC01List", Pkg: "db", Stubs: stubs,
 		Params: map[string]int{"secrets": 2, "versions": 1}, ThoroughParams: map[string]int{"secrets": 3, "versions": 2},
 		ExpectReach: []string{"end"}, Desc: "DB.List returns exactly the present secrets with ALLOW(info, name)"})
+	c01.Harnesses = append(c01.Harnesses, &HarnessSpec{Name: "verifHarnessC01RealRule", Pkg: "db", Stubs: map[string]string{"tailscale.com/atomicfile.WriteFile": "verifAtomicWrite"},
+		Params: map[string]int{"secrets": 1, "versions": 1}, ExpectReach: []string{"end"},
+		Desc: "DB.Get through the REAL rule evaluation (one rule, one-star pattern, symbolic pieces, action and name): a value only with get on a pattern that matches per glob semantics"})
 	propRegistry = append(propRegistry, c01)
 }
 
